@@ -154,6 +154,12 @@ def run(ctx):
     cases = build_cases(ctx, nested=0.25, big=not ctx.quick()) + [short_nested_case()]
     c_out, m_out, err = run_builds(ctx, h_build, cases)
     corr, spec = [], []
+    # the vtable cache driven directly (two tables may share a vtable only if it is byte-identical: size, table size and every entry)
+    from props import c03
+    vt_stats, vt_fail, vt_tie = c03.vtcache_stage(ctx, h_build, 300 if ctx.quick() else 3000)
+    if vt_fail:
+        if vt_tie: vt_fail["theorems_no_longer_tied"] = [t["name"] for t in ths]
+        violation(ctx, "vtcache_%d.json" % ctx.seed, vt_fail, no_failing_input=vt_tie)
     for ci, c in enumerate(cases):
         for st, o in sorted(c_out[ci].items()):
             if o != m_out[ci]:
